@@ -8,4 +8,5 @@ def check(ctx, rep):
     gr.gr_9(ctx, rep)
     cache.cache_2_3(ctx, rep, roles)
     cache.cache_5(ctx, rep)
+    cache.cache_6_7(ctx, rep)
     rep.note('Not decided: equality of the returned tree with a fresh parse.')
